@@ -39,6 +39,14 @@ READ_ENTRIES = [
 
 def run(ctx):
     ctx.step(noblock, ctx)
+    from . import c03 as _c03
+    if not _c03.counters_are_atomics(ctx):
+        ctx.unknown("C14: lr_guarded's reader counters are no longer plain std::atomic integers; the writer / reader / release "
+                    "rules describe that representation and cannot judge another one")
+        ctx.step(_c03.deleter_rules, ctx, "C14.release")
+        ctx.step(read_then_write, ctx)
+        ctx.step(common.raii_token_moves, ctx, "C14.balance", ["lr_guarded.hpp", "cow_guarded.hpp", "rcu_list.hpp", "rcu_guarded.hpp"])
+        return
     ctx.step(writer, ctx)
     # the writer's waits end only if every registration is given back exactly once
     from . import c03
